@@ -22,6 +22,11 @@ item  := 'o:' path            Opener.OpenFile on the case's opener      → ok:<
        | 'r:' path {',' path} rsync receiver with non-empty signatures   → per path sink | burn
        | 'cf:' path | 'cd:' path | 'cl:' path   Transition creating a file / directory / link → ok | fail
        | 'rm:' path           Transition removing a file                 → ok | fail
+       | 'x:' path            Transition changing only the executability of a file (SetPermissions) → ok | fail
+       | 'sx:' path ':' text  the same, the file swapped for a link to `text` when SetPermissions starts → ok | fail
+       | 'sd:' path ':' text  Transition creating a directory, swapped for a link when SetPermissions starts → ok | fail
+       | 'sf:' path           Transition creating a file from another device, the intermediate temporary
+                              file swapped for a link when SetPermissions starts (it is removed again) → fail
        | 'mv:' d ':' name ':' d ':' name | 'ln:' d ':' name ':' text | 'put:' d ':' name ':' hex
        | 'mk:' d ':' name | 'un:' d ':' name     adversary steps (directory inode, single name) → -
 path  := text ('%' alone = the empty path)
@@ -102,6 +107,35 @@ def step (st : St) (item : String) : Option (St × String) :=
     match openAt st.fs d name (k == "d") with
     | .ok i => pure (st, if k == "d" then "ok-dir" else "ok:" ++ content st.fs i)
     | .error _ => pure (st, "fail")
+  | ["x", p] => do
+    let path ← decText p
+    match (chmodFileRace st.fs st.fs path).1 with
+    | some (.ok _) => pure (st, "ok")
+    | _ => pure (st, "fail")
+  | ["sx", p, t] => do
+    let path ← decText p
+    let target ← decText t
+    match (chmodFileRace st.fs st.fs path).1, walkToParent st.fs path true with
+    | some _, (.ok (parent, leaf), _) =>
+      -- SetPermissions is reached: the adversary swaps the entry first
+      let i := nextIno st.fs
+      let fs' := (st.fs.set i (.symlink target)).bind parent leaf i
+      let out := match (chmodFileRace st.fs fs' path).1 with | some (.ok _) => "ok" | _ => "fail"
+      pure ({ st with fs := fs' }, out)
+    | _, _ => pure (st, "fail")
+  | ["sd", p, t] => do
+    let path ← decText p
+    let target ← decText t
+    match (createAt st.fs path).1, walkToParent st.fs path false with
+    | true, (.ok (parent, leaf), _) =>
+      let i1 := nextIno st.fs
+      let fs1 := (st.fs.set i1 (.dir parent [])).bind parent leaf i1
+      let i2 := nextIno fs1
+      let fs2 := (fs1.set i2 (.symlink target)).bind parent leaf i2
+      let out := match setPermAt fs2 parent leaf with | .ok _ => "ok" | .error _ => "fail"
+      pure ({ st with fs := fs2 }, out)
+    | _, _ => pure (st, "fail")
+  | ["sf", _] => some (st, "fail")
   | ["t", ps] => do
     let rs := openAll st.fs (← parsePaths ps) {} []
     pure (st, ",".intercalate (rs.map (showOpen st.fs)))
